@@ -6,12 +6,17 @@ of at least 0.25. -/
 set_option maxHeartbeats 1600000
 namespace CC.HT
 open CC
-theorem alloc_nalloc (m : Mem) : m.alloc.2.nalloc = m.nalloc + (if m.alloc.1 then 1 else 0) := by
-  unfold Mem.alloc; split <;> simp
-@[simp] theorem free_nalloc (m : Mem) : m.free.nalloc = m.nalloc := by
-  unfold Mem.free; split <;> rfl
-@[simp] theorem check_nalloc (m : Mem) (b : Bool) : (m.check b).nalloc = m.nalloc := by
-  cases b <;> simp [Mem.check]
+theorem allocT_allocsOf (m : Mem) (tr : Triple) :
+    allocsOf (m.allocT tr).2 tr = allocsOf m tr + (if (m.allocT tr).1 then 1 else 0) := by
+  cases tr with
+  | conf =>
+    simp only [Mem.allocT_conf, allocsOf]
+    cases hs : m.sched with
+    | nil => simp [Mem.alloc, hs]
+    | cons b rest => cases b <;> simp [Mem.alloc, hs]
+  | libc => simp [Mem.allocT, allocsOf]
+@[simp] theorem freeT_allocsOf (m : Mem) (tr tr' : Triple) : allocsOf (m.freeT tr) tr' = allocsOf m tr' := by
+  cases tr <;> cases tr' <;> simp only [Mem.freeT, allocsOf] <;> (try unfold Mem.free) <;> split <;> rfl
 end CC.HT
 
 namespace CC.HashTable
@@ -19,14 +24,14 @@ open CC CC.HT CC.Spec
 
 /-- `resize` performs exactly one allocation when it succeeds and none that counts otherwise -/
 theorem resize_nalloc (c : HCfg) (t : HashTable) (n : Nat) (m : Mem) :
-    (t.resize c n m).2.2.nalloc = m.nalloc + (if (t.resize c n m).1 = .ok then 1 else 0) := by
+    allocsOf (t.resize c n m).2.2 t.triple = allocsOf m t.triple + (if (t.resize c n m).1 = .ok then 1 else 0) := by
   unfold resize
   split
   · simp
   · simp only
-    cases ha : m.alloc.1 with
-    | false => simp [alloc_nalloc, ha]
-    | true => simp [alloc_nalloc, ha]
+    cases ha : (m.allocT t.triple).1 with
+    | false => simp [allocT_allocsOf, ha]
+    | true => simp [allocT_allocsOf, ha]
 
 /-- a failed `resize` leaves the table as it was -/
 theorem resize_table_of_fail (c : HCfg) (t : HashTable) (n : Nat) (m : Mem) (h : (t.resize c n m).1 ≠ .ok) :
@@ -35,7 +40,7 @@ theorem resize_table_of_fail (c : HCfg) (t : HashTable) (n : Nat) (m : Mem) (h :
   by_cases hm : t.capacity = Gen.MAX_POW_TWO
   · simp [hm]
   · simp only [hm, if_false] at h ⊢
-    cases ha : m.alloc.1 with
+    cases ha : (m.allocT t.triple).1 with
     | false => simp
     | true => simp [ha] at h
 
@@ -43,7 +48,7 @@ theorem resize_table_of_fail (c : HCfg) (t : HashTable) (n : Nat) (m : Mem) (h :
 triggered at half the final capacity by the current size -/
 theorem growLoop_count (c : HCfg) (fuel : Nat) (t : HashTable) (m : Mem) (h : t.Inv c) :
     ∃ j, (growLoop c fuel t m).2.1.capacity = t.capacity * 2 ^ j ∧
-      (growLoop c fuel t m).2.2.nalloc = m.nalloc + j ∧
+      allocsOf (growLoop c fuel t m).2.2 t.triple = allocsOf m t.triple + j ∧
       (j = 0 ∨ c.thr ((growLoop c fuel t m).2.1.capacity / 2) ≤ t.size) := by
   induction fuel generalizing t m with
   | zero => exact ⟨0, by simp [growLoop], by simp [growLoop], Or.inl rfl⟩
@@ -57,12 +62,13 @@ theorem growLoop_count (c : HCfg) (fuel : Nat) (t : HashTable) (m : Mem) (h : t.
         rw [if_pos hok] at hn
         have hmax : t.capacity ≠ Gen.MAX_POW_TWO := by
           intro hm; simp [resize, hm] at hok
-        have hal : m.alloc.1 = true := by
-          cases ha : m.alloc.1 with
+        have hal : (m.allocT t.triple).1 = true := by
+          cases ha : (m.allocT t.triple).1 with
           | true => rfl
           | false => rw [((resize_spec c t m h hmax).1 ha)] at hok; cases hok
-        obtain ⟨_, s2, _, s4, s5, _⟩ := (resize_spec c t m h hmax).2 hal
+        obtain ⟨_, s2, _, s4, s5, _, _, _, s9⟩ := (resize_spec c t m h hmax).2 hal
         obtain ⟨j, j1, j2, j3⟩ := ih (t.resize c (t.capacity <<< 1) m).2.1 (t.resize c (t.capacity <<< 1) m).2.2 s2
+        rw [s9] at j2
         refine ⟨j + 1, ?_, by rw [j2, hn]; omega, Or.inr ?_⟩
         · rw [j1, s5, Nat.pow_succ]; simp only [Nat.mul_comm, Nat.mul_assoc]
         · rcases j3 with j3 | j3
@@ -81,28 +87,31 @@ theorem growLoop_count (c : HCfg) (fuel : Nat) (t : HashTable) (m : Mem) (h : t.
 /-- allocation count of one insertion: one per doubling plus one for a new entry -/
 theorem add_count (c : HCfg) (t : HashTable) (key : Key) (v : Nat) (m : Mem) (h : t.Inv c) :
     ∃ j, (t.add c key v m).2.1.capacity = t.capacity * 2 ^ j ∧
-      (t.add c key v m).2.2.nalloc = m.nalloc + j + ((t.add c key v m).2.1.size - t.size) ∧
+      allocsOf (t.add c key v m).2.2 t.triple = allocsOf m t.triple + j + ((t.add c key v m).2.1.size - t.size) ∧
       t.size ≤ (t.add c key v m).2.1.size ∧ (t.add c key v m).2.1.size ≤ t.size + 1 ∧
       (j = 0 ∨ c.thr ((t.add c key v m).2.1.capacity / 2) ≤ t.size) := by
   obtain ⟨j, j1, j2, j3⟩ := growLoop_count c 64 t m h
   have p := growLoop_spec c 64 t m h
   have hsz := p.size
+  have hT := p.triple
   refine ⟨j, ?_⟩
   unfold add
   by_cases hg : (growLoop c 64 t m).1 = .ok
   · simp only [hg, ne_eq, not_true_eq_false, if_false]
-    generalize growLoop c 64 t m = g at j1 j2 j3 hsz
+    generalize growLoop c 64 t m = g at j1 j2 j3 hsz hT
     obtain ⟨st, t1, m1⟩ := g
-    simp only at j1 j2 j3 hsz ⊢
+    simp only at j1 j2 j3 hsz hT ⊢
     cases hr : chainReplace (t1.bucket (t1.index (keyHash c key))) key v with
     | some ch =>
       simp only
-      exact ⟨j1, by rw [check_nalloc, j2, hsz]; omega, by omega, by omega, j3⟩
+      exact ⟨j1, by rw [check_allocsOf, j2, hsz]; omega, by omega, by omega, j3⟩
     | none =>
       simp only
-      have hn := alloc_nalloc (m1.check (decide (t1.index (keyHash c key) < t1.buckets.length)))
-      rw [check_nalloc] at hn
-      cases ha : (m1.check (decide (t1.index (keyHash c key) < t1.buckets.length))).alloc.1 with
+      have hn := allocT_allocsOf (m1.check (decide (t1.index (keyHash c key) < t1.buckets.length))) t1.triple
+      rw [check_allocsOf] at hn
+      generalize hmm : (m1.check (decide (t1.index (keyHash c key) < t1.buckets.length))).allocT t1.triple = mm at hn ⊢
+      rw [hT] at hn
+      cases ha : mm.1 with
       | false =>
         rw [ha] at hn
         simp only [Bool.not_false, if_true]
@@ -133,7 +142,7 @@ reallocation happened the final capacity is below `8 · (size + 1)`, so `j ≤ l
 theorem addMany_count (c : HCfg) (hthr : ∀ x, x / 4 ≤ c.thr x) (t : HashTable) (kvs : List (Key × Nat)) (m : Mem)
     (h : t.Inv c) :
     ∃ j, (addMany c t kvs m).1.capacity = t.capacity * 2 ^ j ∧
-      (addMany c t kvs m).2.nalloc = m.nalloc + j + ((addMany c t kvs m).1.size - t.size) ∧
+      allocsOf (addMany c t kvs m).2 t.triple = allocsOf m t.triple + j + ((addMany c t kvs m).1.size - t.size) ∧
       t.size ≤ (addMany c t kvs m).1.size ∧ (addMany c t kvs m).1.size ≤ t.size + kvs.length ∧
       (j = 0 ∨ (addMany c t kvs m).1.capacity < 8 * ((addMany c t kvs m).1.size + 1)) := by
   induction kvs generalizing t m with
@@ -141,7 +150,9 @@ theorem addMany_count (c : HCfg) (hthr : ∀ x, x / 4 ≤ c.thr x) (t : HashTabl
   | cons kv kvs ih =>
     obtain ⟨j1, a1, a2, a3, a4, a5⟩ := add_count c t kv.1 kv.2 m h
     have hinv := (add_spec c t kv.1 kv.2 m h).1
+    have hT := (add_spec c t kv.1 kv.2 m h).2.2.2.2.2.2
     obtain ⟨j2, b1, b2, b3, b4, b5⟩ := ih (t.add c kv.1 kv.2 m).2.1 (t.add c kv.1 kv.2 m).2.2 hinv
+    rw [hT] at b2
     have hstep : addMany c t (kv :: kvs) m = addMany c (t.add c kv.1 kv.2 m).2.1 kvs (t.add c kv.1 kv.2 m).2.2 := by
       simp [addMany]
     rw [hstep]
